@@ -186,7 +186,7 @@ PROPS = {
         ],
     },
     "C05": {
-        "units": ["chalproof", "schedule", "ident", "issue"],
+        "units": ["chalproof", "schedule", "ident", "issue", "revdns"],
         "design_ref": "DESIGN.md section 5 C05",
         "technique": "Verus function contracts: proof strings against RFC 8555 section 8 / RFC 8737 texts pinned in the contract; entry lookup against a spec function of (identifier, wildcard flag)",
         "text": "Deductive proof that the key authorization is token.base64url(SHA-256(thumbprint input)), that http-01 / dns-01 / tls-alpn-01 "
@@ -197,7 +197,7 @@ PROPS = {
         "assumptions": [
             "T: SHA-256, base64url, UTF-8 and the JSON text of the thumbprint JWK are uninterpreted functions; `{}` of 31 is \"31\", `{:02x}` of 4 and 32 are \"04\" and \"20\" (axiom_number_texts); SHA-256 yields 32 bytes",
             "T: Display of Challenge prints the RFC names (table in acme_proto.rs, assumed); set_env has the documented precedence (assumed here)",
-            "X: the reverse-DNS text for IP identifiers (get_tls_alpn_name: iterator chain through format!, not under contract)",
+            "T: std::net address parsing as `ip_octets`, decimal text of a byte, the reverse/map/join idiom (prelude/revdns_shims.rs); get_tls_alpn_name and u8_to_nibbles_string are verified (RFC 8738 section 6 / RFC 3596 section 2.5 names)",
         ],
     },
     "C06": {
